@@ -4,10 +4,30 @@
  * instrumented memory access into a potential preemption point owned by the simulator's
  * scheduler.  They are never used as a race oracle. */
 #include <stddef.h>
+#include <stdint.h>
 #include "sim.h"
 
 #define HIT() do { if (__builtin_expect(++g_accesses >= g_next_preempt, 0)) simomp_preempt_slow(); } while (0)
-#define ACC(name) void name(void *a) { (void)a; HIT(); }
+
+/* Conflict-directed preemption: a direct-mapped table remembers which virtual thread touched a
+   location last; a location that two different virtual threads have touched is "shared", and every
+   later access to it is a preemption candidate (probability W.p_shared).  This puts preemptions
+   exactly where unsynchronised hand-overs can go wrong (between a load and the store that follows it).
+   The table is keyed by addresses, so plans that use it run in a fresh worker with address-space
+   randomisation off; replay does not need it (preemption positions are access-counter values). */
+#define SH_BITS 16
+typedef struct { uintptr_t key; unsigned short fib; unsigned char shared; } ShEnt;
+static ShEnt g_sh[1 << SH_BITS];
+void tsan_shared_reset(void) { __builtin_memset(g_sh, 0, sizeof g_sh); }
+static inline void shared_access(void *a)
+{
+    uintptr_t key = (uintptr_t)a >> 3;
+    ShEnt *e = &g_sh[(key * 0x9E3779B97F4A7C15ULL) >> (64 - SH_BITS)];
+    if (e->key != key) { e->key = key; e->fib = (unsigned short)g_cur_fiber_id; e->shared = 0; return; }
+    if (e->fib != (unsigned short)g_cur_fiber_id) { e->fib = (unsigned short)g_cur_fiber_id; e->shared = 1; }
+    if (e->shared) simomp_preempt_now();
+}
+#define ACC(name) void name(void *a) { HIT(); if (W.p_shared) shared_access(a); }
 
 void __tsan_init(void) { }
 void __tsan_func_entry(void *pc) { (void)pc; }
